@@ -211,6 +211,11 @@ class SmiV2Lexer(AbstractLexer):
 
     def t_NUMBER(self, t):
         r'-?[0-9]+'
+        # (no 64-bit number has more than 20 digits; Python refuses to convert
+        # very long digit strings with a ValueError of its own)
+        if len(t.value.lstrip('-0')) > 20:
+            raise error.PySmiLexerError("Number %s... is too big" % t.value[:24], lineno=t.lineno)
+
         t.value = int(t.value)
         neg = 0
         if t.value < 0:
